@@ -32,7 +32,7 @@ def gen_cases(ctx, n):
     while len(cases) < n:
         kw = forced[i] if i < len(forced) else {}
         i += 1
-        wt = B.gen_triangle(rng, **kw)
+        wt = B.gen_triangle(rng, restate_p=0.15, **kw)
         est = sum(40 + 14 * len(c["values"]) + sum(len(v[3]) // 2 for _, v in c["values"] if v[0] == "arr")
                   for c in wt)
         if sizes + est > budget and i > len(forced):
@@ -41,6 +41,8 @@ def gen_cases(ctx, n):
                 continue
         sizes += est
         cases.append(wt)
+    cases.append(B.gen_calendar_triangle(rng, kind="Cell"))
+    cases.append(B.gen_calendar_triangle(rng, n=5, kind="IncrementalCell"))
     return cases
 
 
@@ -153,6 +155,17 @@ def run(ctx):
                 n_fail += 1
                 if n_fail <= 3:
                     report_rt_failure(ctx, wt, bad[0], bad[1], scratch)
+            if bad is None and i % 7 == 3:
+                bad = B.odd_extension_oracle(wt, scratch)   # explicit compress=True/False, odd extensions (F26)
+                ctx.hist("explicit_compress_odd_extension")
+                ctx.count(evaluations=5)
+                if bad is not None:
+                    ctx.violation("impl-violation", bad[0], {"wt": wt, **bad[1]}, found_input=True)
+            if bad is None and i % 6 == 0:
+                bad = B.coords_oracle(wt, scratch)      # datetime / Timestamp coordinates (family D)
+                ctx.hist("datetime_coordinates")
+                if bad is not None:
+                    ctx.violation("impl-violation", bad[0], {"wt": wt, **bad[1]}, found_input=True)
             if bad is not None:
                 continue
             tri = B.mk_triangle(wt)
@@ -187,6 +200,12 @@ def run(ctx):
                 tri = B.mk_triangle(wt)
                 b = B.impl_write(tri, scratch)
                 records.append((wt, b, B.impl_read(b, scratch), []))
+
+        # ---- refusals and boundaries (families G, L)
+        for what, det in B.boundary_oracle(scratch)[:3]:
+            ctx.violation("impl-violation", what, det, found_input=True)
+        ctx.hist("boundary_battery")
+        ctx.count(evaluations=16)
 
         # ---- path reuse through the public Triangle.from_binary: a load must reflect the disk
         n_pairs = 4 if ctx.quick else 20
@@ -361,6 +380,18 @@ def B_parse(out):
 def replay(ctx, data):
     scratch = B.Scratch(ctx.build)
     try:
+        if "boundary" in data:
+            bad = [b for b in B.boundary_oracle(scratch) if b[1].get("boundary") == data["boundary"]]
+            print(f"replaying boundary case {data['boundary']} on {REPO}:", "PROPERTY FAILS: " + bad[0][0] if bad else "holds")
+            return 1 if bad else 0
+        if data.get("check") == "odd_ext":
+            bad = B.odd_extension_oracle(data["wt"], scratch)
+            print("replaying explicit compress with odd extensions:", "PROPERTY FAILS: " + bad[0] if bad else "holds")
+            return 1 if bad else 0
+        if data.get("check") == "coords":
+            bad = B.coords_oracle(data["wt"], scratch)
+            print("replaying datetime/Timestamp coordinates:", "PROPERTY FAILS: " + bad[0] if bad else "holds")
+            return 1 if bad else 0
         if "pair" in data:
             print(f"replaying a path-reuse sequence on {REPO}")
             return B.replay_reuse(data, scratch)
